@@ -507,6 +507,7 @@ def consistency(fs, check_csums=True):
             add("range", "fixed metadata block %d beyond the filesystem" % b)
     cr = fs.cluster_ratio
     owner = {}            # block -> inode
+    xrefs = {}            # attribute block -> number of inodes pointing at it
     used_inodes = fs.in_use_inodes()
     used_set = set(used_inodes)
     dirs, links_found, is_dir = {}, {}, {}
@@ -593,6 +594,7 @@ def consistency(fs, check_csums=True):
                 add("range", "inode %d xattr block %d invalid" % (ino, i["file_acl"]))
             else:
                 owner.setdefault(i["file_acl"], -ino)     # xattr blocks may be shared (refcount)
+                xrefs[i["file_acl"]] = xrefs.get(i["file_acl"], 0) + 1
         nblk = (len({p // cr for (p, u) in fmap.values()}) + len({b // cr for b in meta})) * cr + (cr if i["file_acl"] else 0)
         iblocks = i["blocks"] * (fs.bs // 512 if i["flags"] & HUGE_FILE_FL and fs.ro_compat & RO_HUGE_FILE else 1)
         if cr == 1 and iblocks != nblk * (fs.bs // 512) and not (i["flags"] & INLINE_DATA_FL) and ino not in ea_inodes:
@@ -695,6 +697,13 @@ def consistency(fs, check_csums=True):
             exp = 1
         if i["links"] != exp and not (is_dir.get(ino) and i["links"] == 1 and fs.ro_compat & RO_DIR_NLINK):
             add("links", "inode %d link count %d, %d references" % (ino, i["links"], n))
+    # attribute blocks: magic and reference count = number of inodes pointing at the block
+    for b, nref in sorted(xrefs.items()):
+        hdr = fs.block(b)[:8]
+        if struct.unpack_from("<I", hdr, 0)[0] != XATTR_MAGIC:
+            add("xattr", "attribute block %d has no magic" % b)
+        elif struct.unpack_from("<I", hdr, 4)[0] != nref:
+            add("xattr", "attribute block %d has reference count %d, %d inode(s) point at it" % (b, struct.unpack_from("<I", hdr, 4)[0], nref))
     # bitmaps and per-group counts
     csum = fs.has_group_csum()
     for g, gd in enumerate(fs.groups):
